@@ -270,10 +270,42 @@ def check_c13(rep, tier):
             elif dt > 150 + 1500:
                 rep.violation("impl-vs-spec", f"bestmove announced {int(dt)} ms after `go movetime 150` (an earlier timed search had ended early: {key})", "", replay_ops=replay)
             e.sync(10)
+        check_overshoot(rep, e, stats)
     finally:
         e.close()
     check_combined_limits(rep, "C13", stats)
     return stats, kinds, [r[2] for r in results[:8]]
+
+
+def check_overshoot(rep, e, stats):
+    """Wall-clock side of C13, with a tolerance that survives a loaded machine: for each move time the FASTEST of up
+    to 16 announcements must arrive within the move time plus 25 ms. A timer that wakes late by design (coarse sleep
+    slices, rounding the allotment up, a fixed extra delay) is late every time; scheduling noise is not."""
+    slack = 25
+    for mt in (60, 110, 160, 210):
+        best = None
+        for attempt in range(16):
+            if attempt == 8:
+                time.sleep(0.5)
+            e.send("position startpos")
+            if e.sync(10) is None:
+                return
+            t0 = time.time()
+            e.send("go movetime %d" % mt)
+            lines, ok, eof = e.read_until(lambda l: l.startswith("bestmove"), 10)
+            dt = (time.time() - t0) * 1000
+            e.sync(10)
+            if not ok:
+                rep.violation("impl-vs-spec", f"no bestmove within 10 s for `go movetime {mt}`", "", replay_ops=["position startpos", "go movetime %d" % mt])
+                return
+            best = dt if best is None else min(best, dt)
+            stats["overshoot_tries"] += 1
+            if best <= mt + slack:
+                break
+        stats["fastest_ms_movetime_%d" % mt] = int(best)
+        if best > mt + slack:
+            rep.violation("impl-vs-spec", f"`go movetime {mt}`: the fastest of 16 announcements came {int(best)} ms after the command "
+                          f"(more than {slack} ms beyond the time available)", "", replay_ops=["position startpos", "go movetime %d" % mt])
 
 
 # ----------------------------------------------------------------------------------------- C14
@@ -469,6 +501,7 @@ def check_c14(rep, tier):
                           replay_ops=[f"env {env}"] + [f"{c} (+{d} ms, wait={w})" for c, d, w in script])
         if len(samples) < 2:
             samples.append({"name": name, "env": env, "log": res["log"][:30]})
+    check_deep_tiny(rep, "C14", stats)
     return stats, kinds, samples
 
 
@@ -633,6 +666,47 @@ def check_combined_limits(rep, pid, stats):
                 e.sync(10)
     finally:
         e.close()
+
+
+# ----------------------------------------------------------------------------------------- deepest iterations on the binary (C08, C14)
+
+DEEP_TINY = ["8/8/8/p1k5/P7/8/1K6/8 w - - 0 1",                       # a few checks available on the way down
+             "4k3/8/8/p1p1p1p1/PpPpPpPp/1P1P1P1P/8/4K3 w - - 0 1",     # fully blocked
+             "8/6k1/8/6p1/6P1/8/6K1/8 b - - 0 1"]
+
+
+def check_deep_tiny(rep, pid, stats):
+    """Positions so small that iterative deepening reaches the engine's deepest iteration within a fraction of a second,
+    searched on the REAL binary (its own search thread, stack and tables): an unlimited `go`, the limit itself, one below
+    and far above. The search must end by itself with a bestmove, report no depth beyond the limit (nor beyond the
+    engine's cap), and the session must stay alive and exit cleanly."""
+    cap = 32
+    for fen in DEEP_TINY:
+        for cmd, lim in (("go", cap), ("go depth 31", 31), ("go depth 32", 32), ("go depth 200", cap), ("go infinite", cap)):
+            e = Engine()
+            try:
+                if e.sync(20) is None:
+                    return
+                pos = "position fen " + fen
+                e.send(pos)
+                e.send(cmd)
+                lines, ok, eof = e.read_until(lambda l: l.startswith("bestmove"), 25)
+                stats["deep_tiny_runs"] += 1
+                depths = [int(l.split()[2]) for _, l in lines if l.startswith("info depth ") and l.split()[2].isdigit()]
+                replay = [pos, cmd]
+                alive = e.sync(10) is not None
+            finally:
+                rc, err = e.close()
+            if not ok:
+                rep.violation("impl-vs-spec", f"`{cmd}` on a tiny position did not end by itself with a bestmove (deepest iteration "
+                              f"{max(depths) if depths else 0}; engine {'gone' if eof or not alive else 'alive'})",
+                              (err or "")[-600:], replay_ops=replay)
+            elif not alive or rc != 0 or (err or "").strip():
+                rep.violation("impl-vs-spec", f"the engine did not survive `{cmd}` on a tiny position (rc={rc})", (err or "")[-600:], replay_ops=replay)
+            elif depths and max(depths) > lim:
+                rep.violation("impl-vs-spec", f"`{cmd}` searched to depth {max(depths)}, beyond {lim}", "", replay_ops=replay)
+            elif pid == "C08" and (not depths or max(depths) != lim):
+                rep.violation("impl-vs-spec", f"`{cmd}` on a drawn tiny position stopped at depth {max(depths) if depths else 0} instead of {lim}", "", replay_ops=replay)
 
 
 # ----------------------------------------------------------------------------------------- stop promptness on the binary (C07)
